@@ -222,9 +222,21 @@ def r3_tombstones(ctx):
     ok = any(isinstance(s, ast.Assign) and path_of(s.targets[0]) == 'self.type' and A.const(s.value) is None and isinstance(s.value, ast.Constant) for s in ast.walk(f))
     yield Ob('x12context:X12DataNode.delete marks the node with type = None', ok, ctx.floc(f), '' if ok else 'tombstone marker changed')
     f = ctx.func('x12context', 'X12DataNode._cleanup')
-    ok = 'x.type is not None' in ast.unparse(f) and 'self.children = ' in ast.unparse(f)
-    require_idiom(ok, 'c10.py:178')
-    yield Ob('x12context:X12DataNode._cleanup sweeps on the same marker', ok, ctx.floc(f), '' if ok else '_cleanup changed')
+    # decided by constant propagation through _cleanup on a child list that mixes segments, loops and deleted nodes: the
+    # live children remain, in the order they had
+    from ..absint import traces, NotClosedTest
+    kinds = ('loop', 'seg', None, 'loop', 'seg', 'seg', None, 'loop')
+    kids = tuple(A.Model('n%d' % i, type=t) for i, t in enumerate(kinds))
+    try:
+        res = traces(ctx.cfg(f), {'self.children': kids}, lambda c: None)
+    except NotClosedTest as e:
+        raise AnalysisError('X12DataNode._cleanup cannot be decided: %s' % e)
+    outs = {dict(e_).get('self.children') for _t, e_ in res}
+    want = tuple(k for k in kids if k.type is not None)
+    ok = outs == {want}
+    yield Ob('x12context:X12DataNode._cleanup sweeps on the same marker', ok, ctx.floc(f),
+             '' if ok else '_cleanup turns the children %s into %s: live nodes are lost, deleted ones kept, or the order changes (segments then come out of source order)'
+             % ([k._name + ':' + str(k.type) for k in kids], [[k._name for k in o] if o is not None else None for o in outs]))
     for cname in ('X12LoopDataNode', 'X12SegmentDataNode'):
         f = ctx.func('x12context', cname + '.delete')
         ok = any(A.call_target(c) == ('X12DataNode', 'delete') for c in A.calls_in(f))
@@ -386,6 +398,24 @@ def r6_start_node_used(ctx):
                     bad.append(c)
                 if uses_rest and recv == start:
                     used = True
+            # ... and searches the path as it was resolved: a path object built from it must not have lost a part (qualifier,
+            # loops, index) by the time it is handed to the search
+            po_ = A.preorder(f)
+            pobjs = {a.targets[0].id for a in ast.walk(f) if isinstance(a, ast.Assign) and len(a.targets) == 1 and isinstance(a.targets[0], ast.Name)
+                     and isinstance(a.value, ast.Call) and A.call_target(a.value)[1] == 'X12Path' and a.value.args and path_of(a.value.args[0]) == rest}
+            for c in A.calls_in(f):
+                if not isinstance(c.func, ast.Attribute) or path_of(c.func.value) != start:
+                    continue
+                for a_ in c.args:
+                    nm_ = a_.id if isinstance(a_, ast.Name) else (a_.func.value.id if isinstance(a_, ast.Call) and isinstance(a_.func, ast.Attribute)
+                                                                 and a_.func.attr == 'format' and isinstance(a_.func.value, ast.Name) else None)
+                    if nm_ in pobjs:
+                        cut = [w_ for w_ in ast.walk(f) if isinstance(w_, ast.Assign) and any(isinstance(t_, ast.Attribute) and isinstance(t_.value, ast.Name)
+                                                                                             and t_.value.id == nm_ for t_ in w_.targets) and po_[id(w_)] < po_[id(c)]]
+                        if cut:
+                            yield Ob(km('x12context:%s searches the path as resolved' % q), False, ctx.loc(m, c),
+                                     '`%s` is searched after `%s`: the node is looked up under a path that has lost that part, so a qualified path '
+                                     '(REF[EA]02) addresses the first segment with that id whatever its qualifier' % (norm(c), norm(cut[0])))
             ok = not bad and used
             yield Ob(km('x12context:%s searches the rest of the path from the resolved start node' % q), ok, ctx.loc(m, bad[0] if bad else s_),
                      '' if ok else ('`%s` searches the shortened path from self, not from `%s`: "../X" then addresses a child of this node instead '
